@@ -138,6 +138,35 @@ func TestVerifC20(t *testing.T) {
 			}
 			cur = after
 		}
+		// a restarted recorder keeps running: fresh events arrive, time passes until the oldest reloaded entry of each
+		// user is past retention (its create time is moved, which is what the passing of time amounts to), and the
+		// hourly expiry runs: exactly that entry goes, everything younger stays, in order
+		if cycleOK {
+			if m, err := loadEvents(file); err == nil {
+				sr3 := c20NewRecorder()
+				sr3.eventsMap = m
+				wantAfter := EventsMap{}
+				for user := range expect {
+					c20Record(sr3, user, []uint64{now - 30}, rng)
+					l := sr3.eventsMap[user]
+					v := c20View(sr3)[user]
+					if l == nil || l.oldest == nil || len(v) < 2 {
+						continue
+					}
+					l.oldest.CreateTime = now - retention - 100
+					wantAfter[user] = append([]EventType{}, v[:len(v)-1]...)
+				}
+				sr3.expireOldEvents()
+				got := c20View(sr3)
+				for user, w := range wantAfter {
+					rep.Count("reload_then_expiry_checked", 1)
+					if !c20SameOrder(w, got[user], now-retention) {
+						rep.Violate("C20/history/expiry-after-reload-drops-younger-events", "after a restart, the expiry of a user's oldest entry took younger entries (or events recorded since the restart) with it",
+							map[string]interface{}{"user": user, "want_newest_first": c20Brief(w), "got": c20Brief(got[user])})
+					}
+				}
+			}
+		}
 		if cycleOK {
 			rep.Count("histories_roundtripped", 1)
 			if i < 3 {
@@ -363,6 +392,7 @@ func TestVerifC20(t *testing.T) {
 	rep.Floor("histories_roundtripped", 100)
 	rep.Floor("expiries_checked", 50)
 	rep.Floor("second_expiries_checked", 50)
+	rep.Floor("reload_then_expiry_checked", 50)
 	rep.Floor("live_restart_ok", 5)
 	rep.Floor("crash_files_consistent", 3)
 }
